@@ -66,6 +66,33 @@ READER_CALLERS = {
 }
 
 
+# the stack primitives move or copy a cell as it is — tags included — by definition; they compute nothing
+STACK_SHUFFLERS = {
+    'state::State::dup_data': 'dup copies the top cell as it is', 'state::State::over_data': 'over copies the second cell as it is',
+    'state::State::swap_data': 'swap moves cells', 'state::State::rot_data': 'rot moves cells',
+}
+
+
+def _only_called_by(fx, fn, table, roots, depth=3, _seen=()):
+    """a helper that is not itself a word and whose every caller is a reviewed site (or such a helper in turn):
+    the reviewed sites it was extracted from; None if some caller is not"""
+    if fn in roots or depth == 0 or fn in _seen:
+        return None
+    callers = sorted(fx.callers().get(fn, ()))
+    if not callers:
+        return None
+    out = []
+    for c in callers:
+        if c in table:
+            out.append(c)
+            continue
+        sub = _only_called_by(fx, c, table, roots, depth - 1, _seen + (fn,))
+        if sub is None:
+            return None
+        out += sub
+    return sorted(set(out))
+
+
 def _whole_pop(e, depth=0):
     """does e denote (a clone of) a whole cell obtained from pop_data/top_data?"""
     from ..core import unwrap_value
@@ -235,18 +262,26 @@ def run(rep, facts, tier):
                 n_p += 1
                 inreach = fn in reach
                 ok = fn in PRODUCER_CALLERS or not inreach
+                via = None
+                if not ok:
+                    via = _only_called_by(fx, fn, PRODUCER_CALLERS, roots)
+                    ok = via is not None
                 rep.add('C13.R3', 'C13.R3:%s->%s' % (fn, short(c)), ok,
-                        PRODUCER_CALLERS.get(fn, 'not reachable from any word') if ok else
+                        (PRODUCER_CALLERS.get(fn) or ('helper called only by ' + ', '.join(short(v) for v in via) if via else 'not reachable from any word')) if ok else
                         '%s attaches tags to a computed result (calls %s): fresh results must carry no tags' % (fn, short(c)),
                         fn, t.get('at'), nontrivial=inreach)
             if c in READERS:
                 inreach = fn in reach
                 ok = fn in READER_CALLERS or not inreach
+                via = None
+                if not ok:
+                    via = _only_called_by(fx, fn, READER_CALLERS, roots)
+                    ok = via is not None
                 rep.add('C13.R4', 'C13.R4:%s->%s' % (fn, short(c)), ok,
-                        READER_CALLERS.get(fn, 'not reachable from any word') if ok else
+                        (READER_CALLERS.get(fn) or ('helper called only by ' + ', '.join(short(v) for v in via) if via else 'not reachable from any word')) if ok else
                         '%s reads the tags of its argument (calls %s): its behaviour can depend on tags' % (fn, short(c)),
                         fn, t.get('at'), nontrivial=inreach)
-    rep.floor('C13.R3 tag producer call sites', n_p, 11)
+    rep.floor('C13.R3 tag producer call sites', n_p, 8)
     # R3 (pass-through): no word hands a whole popped cell back as its "result": a computed result is built
     # from the untagged value, so it cannot inherit the argument's tags
     from ..core import unwrap_value
@@ -261,7 +296,9 @@ def run(rep, facts, tier):
             if callee_of(t) == 'state::State::push_data':
                 n_push += 1
                 e = f.expr_of_operand(t['args'][1])
-                if _whole_pop(e):
+                if _whole_pop(e) and fn in STACK_SHUFFLERS:
+                    rep.add('C13.R3', 'C13.R3:pass-through:%s' % fn, True, STACK_SHUFFLERS[fn], fn, t.get('at'), nontrivial=False)
+                elif _whole_pop(e):
                     rep.add('C13.R3', 'C13.R3:pass-through:%s' % fn, False,
                             '%s pushes back a whole cell it popped (%s): the "result" keeps the tags of that argument' % (short(fn), expr_str(e)[:70]),
                             fn, t.get('at'))
